@@ -269,7 +269,10 @@ def run(tier, seed):
                 exp = (oor is False) if inr else (oor is True)
                 if real[0] == 'raise' or (real[1] == 'true') != exp:
                     key = None
-                    for q, kname in ((('week53',), 'C18-week53-dec31-in-week1'), (('weekrange',), 'C18-week-year-range')):
+                    # the implementation has both known deviations at once: a bound can be valid only through the week-53 one
+                    # and the value then raise through the year-range one
+                    for q, kname in ((('week53',), 'C18-week53-dec31-in-week1'), (('weekrange',), 'C18-week-year-range'),
+                                     (('week53', 'weekrange'), 'C18-week-year-range' if real[0] == 'raise' else 'C18-week53-dec31-in-week1')):
                         try:
                             o2 = spec.out_of_range(lt, mn, mx, v, q)
                             e2 = ['ok', 'true' if ((o2 is False) if inr else (o2 is True)) else 'false']
